@@ -7,13 +7,17 @@ import os
 D = "/verif/harness/manifest"
 
 
+# the lead's allow-list: a property is claimed only once its check is green on the unchanged tree for seeds 0,1,2
+CLAIMED = open(os.path.join(D, "claimed.txt")).read().split()
+
+
 def main():
     props = [json.loads(l)["id"] for l in open("/verif/properties.jsonl")]
     na_reasons = json.load(open(os.path.join(D, "na.json"))) if os.path.exists(os.path.join(D, "na.json")) else {}
     checks, claimed = [], []
     for pid in props:
         p = os.path.join(D, pid + ".json")
-        if not os.path.exists(p) or pid in na_reasons:
+        if not os.path.exists(p) or pid in na_reasons or pid not in CLAIMED:
             continue
         c = json.load(open(p))
         claimed.append(pid)
